@@ -34,8 +34,9 @@ from .inline import PURE_FUNCS, PURE_METHODS
 
 LOOP_UNROLL = 2
 WHILE_UNROLL = 3
-MAX_PATHS = 1500
-MAX_STEPS = 20000
+UNROLL_LEVELS = ((2, 3), (1, 2), (1, 1))
+MAX_PATHS = 8000
+MAX_STEPS = 40000
 MAX_DEPTH = 6
 
 OBSERVATIONS = {'time', 'now', 'monotonic', 'today', 'localtime', 'utcnow', 'perf_counter'}
@@ -76,6 +77,11 @@ class Unknown(Exception):
 
 class Sym(str):
     """An opaque value; its text is canonical."""
+    __slots__ = ()
+
+
+class Star(Sym):
+    """`*x` of an unknown sequence in an argument / element list."""
     __slots__ = ()
 
 
@@ -169,6 +175,17 @@ class Ctx:
         self.stepin = stepin            # quals that exist (unchanged) in this version only
         self.const_attrs = const_attrs
         self.alphabet = tuple(alphabet)
+        self.unroll = (LOOP_UNROLL, WHILE_UNROLL)
+        self.nt_fields = {}
+        seen = {}
+        for cd in classes.values():
+            if 'NamedTuple' in {ast.unparse(b).split('.')[-1] for b in cd.bases}:
+                flds = [st.target.id if isinstance(st, ast.AnnAssign) else st.targets[0].id for st in cd.body
+                        if (isinstance(st, ast.AnnAssign) and isinstance(st.target, ast.Name)) or
+                        (isinstance(st, ast.Assign) and len(st.targets) == 1 and isinstance(st.targets[0], ast.Name))]
+                for i, f in enumerate(flds):
+                    seen.setdefault(f, set()).add(i)
+        self.nt_fields = {f: next(iter(ix)) for f, ix in seen.items() if len(ix) == 1}
 
 
 class Run:
@@ -184,12 +201,18 @@ class Run:
         self.trace = []
         self.epoch = 0
         self.store = {}                 # (objtext, attr) -> value written on this path
-        self.try_depth = 0
+        self.try_stack = []
         self.steps = 0
         self.depth = 0
         self.exc_cls = {}
         self.cur_exc = []
         self.cut = False
+        self.escaped = set()
+        self.eq_ops = {}
+        self.eq_known = {}
+        self.exc_group = {}
+        self.keep = []
+        self.yield_hooks = []
 
     # ------------------------------------------------------------------ decisions
     def choose(self, key: str, options: list):
@@ -226,9 +249,17 @@ class Run:
         atom = s if s.startswith(_ATOM_HEADS) else f'truth({s})'
         if atom in self.facts:
             d = self.facts[atom]
+        elif atom in self.eq_ops and self.eq_ops[atom][1] in self.eq_known:
+            # X == c1 is known: X == c2 is decided by the constants
+            cv, st = self.eq_ops[atom]
+            d = (cv == self.eq_known[st] and type(cv) is type(self.eq_known[st]))
+            self.facts[atom] = d
         else:
             d = self.choose(atom, [True, False])
             self._infer(atom, d)
+            if d and atom in self.eq_ops:
+                cv, st = self.eq_ops[atom]
+                self.eq_known[st] = cv
         return d if pol else not d
 
     def _infer(self, atom, d):
@@ -236,6 +267,19 @@ class Run:
             self.facts.setdefault(f'truth({atom[9:-1]})', False)
         if atom.startswith('truth(') and d:
             self.facts.setdefault(f'is(None, {atom[6:-1]})', False)
+        if atom.startswith('isinstance(') and d:
+            inner = atom[len('isinstance('):-1]
+            depth = 0
+            for i, ch in enumerate(inner):
+                if ch in '([{':
+                    depth += 1
+                elif ch in ')]}':
+                    depth -= 1
+                elif ch == ',' and depth == 0:
+                    x, t = inner[:i], inner[i + 1:].strip()
+                    if 'None' not in t and 'object' not in t:
+                        self.facts.setdefault(f'is(None, {x})', False)
+                    break
         if atom.startswith('is(') and d:
             # identical objects are equal
             self.facts.setdefault('eq(' + atom[3:], True)
@@ -247,13 +291,59 @@ class Run:
         if bump:
             self.epoch += 1
             self.store.clear()
-        if fault and self.try_depth > 0 and self.ctx.alphabet:
-            c = self.choose(f'fault@{n}', [None] + list(self.ctx.alphabet))
-            if c is not None:
-                val = Sym(f'exc{n}:{c}')
+        if fault and self.try_stack and self.ctx.alphabet:
+            classes = [c for c in self.ctx.alphabet if c != 'CancelledError' or kind == 'await']
+            g = self.choose(f'fault@{n}', [None] + self._fault_groups(classes))
+            if g is not None:
+                c = g.split('|')[0]
+                val = Sym(f'exc{n}')
                 self.exc_cls[str(val)] = c
+                self.exc_group[str(val)] = (f'fault@{n}', g.split('|'))
                 raise _Exc(c, val)
         return n
+
+    def exc_isinstance(self, val: str, type_names: list):
+        """isinstance(<injected exception>, types): decided by the classes of its group; a group
+        whose members disagree is split (the narrowed group is the recorded decision)."""
+        key, members = self.exc_group[val]
+        yes = [c for c in members if any(t in _ancestors(c) for t in type_names)]
+        no = [c for c in members if c not in yes]
+        if not no:
+            return True
+        if not yes:
+            return False
+        d = self.choose(f'split:{val}:{",".join(type_names)}', [True, False])
+        keep = yes if d else no
+        self.exc_group[val] = (key, keep)
+        self.exc_cls[val] = keep[0]
+        self.facts[key] = '|'.join(keep)
+        return d
+
+    def _fault_groups(self, classes) -> list:
+        """Exception classes that the enclosing handlers cannot tell apart behave alike: one
+        representative per group (the group is the decision value: groups of two versions are
+        compatible when they share a class)."""
+        groups = {}
+        for c in classes:
+            anc = _ancestors(c)
+            sig = tuple(next((i for i, names in enumerate(level) if any(n in anc for n in names)), -1)
+                        for level in reversed(self.try_stack))
+            groups.setdefault(sig, []).append(c)
+        return ['|'.join(sorted(v)) for _k, v in sorted(groups.items(), key=lambda kv: sorted(kv[1]))]
+
+    def escape(self, v):
+        if isinstance(v, (list, dict, set)):
+            self.escaped.add(id(v))
+            self.keep.append(v)
+            for x in (v.values() if isinstance(v, dict) else v):
+                self.escape(x)
+        elif isinstance(v, tuple):
+            for x in v:
+                self.escape(x)
+
+    def mutated(self, c):
+        if id(c) in self.escaped:
+            self.effect('mutate', show(c), bump=False, fault=False)
 
     def tick(self):
         self.steps += 1
@@ -319,7 +409,7 @@ class Run:
                 elif isinstance(v, (set, frozenset, dict)):
                     out.extend(list(v))
                 else:
-                    out.append(Sym(f'*{show(v)}'))
+                    out.append(Star(f'*{show(v)}'))
             else:
                 out.append(self.ev(x, env))
         return out
@@ -369,6 +459,10 @@ class Run:
             key = (str(obj), attr)
             if key in self.store:
                 return self.store[key]
+            idx = self.ctx.nt_fields.get(attr)
+            if idx is not None:
+                # a field of a NamedTuple class of this version only, read from a stored tuple
+                return Sym(f'{obj}[{idx}]')
             if attr in self.ctx.const_attrs or attr.startswith('__'):
                 return Sym(f'{obj}.{attr}')
             return Sym(f'{obj}.{attr}@{self.epoch}')
@@ -404,11 +498,23 @@ class Run:
         if isinstance(obj, str) and not isinstance(obj, Sym) and isinstance(key, int):
             return obj[key]
         txt = f'{show(obj)}[{show(key)}]'
-        if self.try_depth > 0:
-            look = [c for c in self.ctx.alphabet if c in ('KeyError', 'IndexError', 'LookupError')]
+        if self.try_stack:
+            kinds = ('IndexError', 'LookupError') if isinstance(key, int) else ('KeyError', 'LookupError')
+            look = [c for c in self.ctx.alphabet if c in kinds and any(
+                any(n in _ancestors(c) for names in level for n in names) for level in self.try_stack)]
+            if look and not isinstance(key, int) and not isinstance(e.slice, ast.Slice):
+                # a mapping lookup fails exactly when the key is not in the mapping: the same atom
+                # as an `in` test (try/except KeyError <-> membership test)
+                if not self.decide(Sym(f'in({show(key)}, {show(obj)})')):
+                    c = 'KeyError'
+                    val = Sym(f'KeyError({show(key)})')
+                    self.exc_cls[str(val)] = c
+                    raise _Exc(c, val)
+                return Sym(txt)
             if look:
-                c = self.choose(f'sub-fault:{txt}', [None] + look)
-                if c is not None:
+                g = self.choose(f'sub-fault:{txt}', [None] + self._fault_groups(look))
+                if g is not None:
+                    c = g.split('|')[0]
                     val = Sym(f'exc:{c}:{txt}')
                     self.exc_cls[str(val)] = c
                     raise _Exc(c, val)
@@ -496,6 +602,10 @@ class Run:
                 return o == 'IsNot'     # a concrete non-None value is not None
             x, y = sorted((sa, sb))
             s = f"{'eq' if o in ('Eq', 'NotEq') else 'is'}({x}, {y})"
+            if _concrete(a) != _concrete(b) and o in ('Eq', 'NotEq'):
+                cv, st = (a, sb) if _concrete(a) else (b, sa)
+                if isinstance(cv, (int, str, float, bool)) or cv is None:
+                    self.eq_ops[s] = (cv, st)
             return Sym(s) if o in ('Eq', 'Is') else _neg(s)
         if o in ('In', 'NotIn'):
             if isinstance(b, (list, tuple, set, frozenset, dict)) and not isinstance(b, Sym):
@@ -619,46 +729,39 @@ class Run:
         except Exception:
             raise Unknown('unparse')
 
-    def _comp(self, e, env):
-        gens = e.generators
-        first = self.ev(gens[0].iter, env)
-        if any(g.is_async for g in gens):
-            raise Unknown('async comprehension')
-        if isinstance(first, Sym) or len(gens) > 1 and True and not self._comp_concrete(gens, env):
-            return None
-        return first
-
-    def _comp_concrete(self, gens, env):
-        return len(gens) == 1
-
     def _comprehension(self, e, env, kind):
+        """A comprehension is the loop it abbreviates: unknown collections are unrolled with the
+        same more(...) decisions as a `for` statement over them."""
         gens = e.generators
         if any(g.is_async for g in gens):
             raise Unknown('async comprehension')
-        it = self.ev(gens[0].iter, env)
-        if len(gens) == 1 and not isinstance(it, Sym) and isinstance(it, (list, tuple, set, frozenset, dict)):
-            scope = {'vars': {}, 'parent': env}
-            out = [] if kind != 'dict' else {}
-            for el in list(it):
-                self.assign(gens[0].target, el, scope)
-                if all(self.decide(self.ev(c, scope)) for c in gens[0].ifs):
-                    if kind == 'dict':
-                        out[self._hashable(self.ev(e.key, scope))] = self.ev(e.value, scope)
-                    else:
-                        out.append(self.ev(e.elt, scope))
-            if kind == 'set':
-                return set(self._hashable(x) for x in out)
-            return out
-        # uninterpreted: must not hide effects
-        for x in ast.walk(e):
-            if isinstance(x, ast.Await):
-                raise Unknown('await in comprehension')
-            if isinstance(x, ast.Call) and not self._pure_callnode(x) and not is_logging_call(x):
-                # an effectful comprehension over an unknown collection: an effect of its own
-                txt = self._open_text(e, env)
-                n = self.effect('comp', txt)
-                return Sym(f'r{n}')
-        return Sym(self._open_text(e, env))
+        out = [] if kind != 'dict' else {}
+
+        def rec(gi, scope):
+            if gi == len(gens):
+                if kind == 'dict':
+                    k = self._hashable(self.ev(e.key, scope))
+                    for x in list(out):
+                        if show(x) == show(k):
+                            del out[x]
+                    out[k] = self.ev(e.value, scope)
+                else:
+                    out.append(self.ev(e.elt, scope))
+                return
+            g = gens[gi]
+            itv = self.ev(g.iter, scope)
+            for el in self._iterate(itv, g.iter):
+                self.assign(g.target, el, scope)
+                if all(self.decide(self.ev(c, scope)) for c in g.ifs):
+                    rec(gi + 1, scope)
+        rec(0, {'vars': {}, 'parent': env})
+        if kind == 'set':
+            res = set()
+            for x in out:
+                if not any(show(x) == show(y) for y in res):
+                    res.add(self._hashable(x))
+            return res
+        return out
 
     def _pure_callnode(self, c):
         f = c.func
@@ -681,8 +784,15 @@ class Run:
         return self._comprehension(e, env, 'dict')
 
     def ev_GeneratorExp(self, e, env):
-        v = self._comprehension(e, env, 'list')
-        return v if isinstance(v, Sym) else tuple(v)
+        # evaluated where it is written: exact when it is consumed at once (any/all/sum/sorted/
+        # tuple/set/dict/join/for), which is how this code base uses generator expressions
+        return tuple(self._comprehension(e, env, 'list'))
+
+    def ev_Yield(self, e, env):
+        if not self.yield_hooks:
+            raise Unknown('generator')
+        v = self.ev(e.value, env) if e.value is not None else None
+        return self.yield_hooks[-1](v)
 
     def ev_Starred(self, e, env):
         raise Unknown('starred')
@@ -835,6 +945,8 @@ class Run:
         return NotImplemented
 
     def opaque_call(self, ftext: Sym, last: str, args, kw):
+        args = [self.settle(a) for a in args]
+        kw = {k: self.settle(v) for k, v in kw.items()}
         sargs = tuple(show(a) for a in args)
         skw = tuple(sorted((k, show(v)) for k, v in kw.items()))
         call_txt = f"{ftext}({', '.join(list(sargs) + [f'{k}={v}' for k, v in skw])})"
@@ -848,10 +960,10 @@ class Run:
         is_name = isinstance(ftext, GSym) and '.' not in ftext
         if (is_name and last in PURE_FUNCS) or (not is_name and last in PURE_METHODS):
             return Sym(call_txt)
-        # passing local mutable containers to unknown code: their later content is unknown
+        # A7: the callee does not change a local container it is handed (its content at the call is
+        # part of the trace; what THIS function does to it later is recorded as an effect)
         for a in list(args) + list(kw.values()):
-            if isinstance(a, (list, dict, set)):
-                raise Unknown('local container escapes into an uninterpreted call')
+            self.escape(a)
         n = self.effect('call', call_txt)
         return Sym(f'r{n}')
 
@@ -867,6 +979,11 @@ class Run:
         if name == 'isinstance' and len(args) == 2:
             a, t = args
             ts = show(t)
+            if isinstance(a, Sym) and str(a) in self.exc_group:
+                return self.exc_isinstance(str(a), [x.strip().split('.')[-1] for x in ts.strip('()').split(',') if x.strip()])
+            if isinstance(a, Sym) and str(a) in self.exc_cls and not self.exc_cls[str(a)].startswith('?'):
+                names = [x.strip().split('.')[-1] for x in ts.strip('()').split(',') if x.strip()]
+                return any(n in _ancestors(self.exc_cls[str(a)]) for n in names)
             if not isinstance(a, Sym):
                 tn = {'NoneType'} if a is None else {type(a).__name__}
                 if isinstance(a, NT):
@@ -946,107 +1063,220 @@ class Run:
             return True
         return NotImplemented
 
+    _MUTATORS = {'append', 'extend', 'pop', 'insert', 'clear', 'reverse', 'sort', 'remove', 'update',
+                 'setdefault', 'add', 'discard', 'popitem', 'difference_update', 'intersection_update'}
+
     def method(self, recv, name, args, kw):
         if isinstance(recv, Sym):
             return NotImplemented
         try:
-            if isinstance(recv, list):
-                if name == 'append' and len(args) == 1:
-                    recv.append(args[0]); return None
-                if name == 'extend' and len(args) == 1 and not isinstance(args[0], Sym) and isinstance(args[0], (list, tuple)):
-                    recv.extend(args[0]); return None
-                if name == 'pop' and len(args) <= 1 and all(isinstance(a, int) for a in args):
-                    if not recv:
-                        raise self._raise_builtin('IndexError')
-                    return recv.pop(*args)
-                if name == 'copy' and not args:
-                    return list(recv)
-                if name == 'insert' and len(args) == 2 and isinstance(args[0], int):
-                    recv.insert(*args); return None
-                if name in ('sort', 'reverse', 'remove', 'index', 'count', 'clear'):
-                    if name == 'clear':
-                        recv.clear(); return None
-                    if name == 'reverse':
-                        recv.reverse(); return None
-                    raise Unknown(f'list.{name}')
-            if isinstance(recv, dict):
-                if name == 'get' and 1 <= len(args) <= 2:
-                    k = args[0]
-                    if any(show(k) == show(x) for x in recv):
-                        return next(v for x, v in recv.items() if show(x) == show(k))
-                    if all(_concrete(x) for x in recv) and _concrete(k):
-                        return args[1] if len(args) == 2 else None
-                    raise Unknown('dict.get with symbolic key')
-                if name in ('items', 'keys', 'values') and not args:
-                    return [tuple(i) for i in recv.items()] if name == 'items' else list(getattr(recv, name)())
-                if name == 'copy' and not args:
-                    return dict(recv)
-                if name == 'update':
-                    for a in args:
-                        if isinstance(a, dict):
-                            recv.update(a)
-                        else:
-                            raise Unknown('dict.update')
-                    recv.update(kw)
-                    return None
-                if name == 'pop' and 1 <= len(args) <= 2:
-                    k = args[0]
-                    for x in list(recv):
-                        if show(x) == show(k):
-                            return recv.pop(x)
-                    if all(_concrete(x) for x in recv) and _concrete(k):
-                        if len(args) == 2:
-                            return args[1]
-                        raise self._raise_builtin('KeyError')
-                    raise Unknown('dict.pop with symbolic key')
-                if name == 'setdefault' and len(args) == 2:
-                    k = args[0]
-                    for x in recv:
-                        if show(x) == show(k):
-                            return recv[x]
-                    if all(_concrete(x) for x in recv) and _concrete(k):
-                        recv[k] = args[1]
-                        return args[1]
-                    raise Unknown('dict.setdefault')
-                raise Unknown(f'dict.{name}')
-            if isinstance(recv, set):
-                if name == 'add' and len(args) == 1:
-                    recv.add(self._hashable(args[0])); return None
-                if name == 'discard' and len(args) == 1:
-                    if any(isinstance(x, Sym) for x in recv) or isinstance(args[0], Sym):
-                        for x in list(recv):
-                            if show(x) == show(args[0]):
-                                recv.discard(x)
-                                return None
-                        raise Unknown('set.discard with symbols')
-                    recv.discard(args[0]); return None
-                if name == 'copy':
-                    return set(recv)
-                raise Unknown(f'set.{name}')
-            if isinstance(recv, str):
-                if all(_concrete(a) for a in args) and not kw and name in (
-                        'startswith', 'endswith', 'lower', 'upper', 'strip', 'split', 'partition',
-                        'rpartition', 'removeprefix', 'removesuffix', 'format', 'join', 'replace',
-                        'isidentifier', 'isdigit', 'lstrip', 'rstrip', 'rsplit', 'count', 'find'):
-                    r = getattr(recv, name)(*args)
-                    return r
-                if name in ('format', 'join'):
-                    return Sym(f'{show(recv)}.{name}({", ".join(show(a) for a in args)})')
-                raise Unknown(f'str.{name}')
-            if isinstance(recv, tuple):
-                if name in ('index', 'count') and len(args) == 1 and _concrete(recv) and _concrete(args[0]):
-                    return getattr(recv, name)(args[0])
-                if name == '_replace' and isinstance(recv, NT):
-                    vals = list(recv)
-                    for k, v in kw.items():
-                        vals[recv.fields.index(k)] = v
-                    r = NT(vals)
-                    r.fields = recv.fields
-                    return r
-                raise Unknown(f'tuple.{name}')
+            r = self._method(recv, name, args, kw)
         except (ValueError, TypeError, KeyError, IndexError):
             raise Unknown('container method')
+        if r is not NotImplemented and name in self._MUTATORS and isinstance(recv, (list, dict, set)):
+            self.mutated(recv)
+        return r
+
+    def _same(self, a, b) -> bool:
+        """Equality of two values of a local collection; decided (forks) when symbolic."""
+        if _concrete(a) and _concrete(b):
+            return a == b
+        if show(a) == show(b):
+            return True
+        return self.decide(self.compare(ast.Eq(), a, b))
+
+    def _method(self, recv, name, args, kw):
+        if isinstance(recv, list):
+            if name == 'append' and len(args) == 1:
+                recv.append(args[0]); return None
+            if name == 'extend' and len(args) == 1 and not isinstance(args[0], Sym) and isinstance(
+                    args[0], (list, tuple, set, frozenset)):
+                recv.extend(self._ordered(args[0])); return None
+            if name == 'pop' and len(args) <= 1 and all(isinstance(a, int) for a in args):
+                if not recv:
+                    raise self._raise_builtin('IndexError')
+                return recv.pop(*args)
+            if name == 'copy' and not args:
+                return list(recv)
+            if name == 'insert' and len(args) == 2 and isinstance(args[0], int):
+                recv.insert(*args); return None
+            if name == 'clear':
+                recv.clear(); return None
+            if name == 'reverse':
+                recv.reverse(); return None
+            if name == 'sort':
+                if len(recv) <= 1:
+                    return None
+                if _concrete(recv) and not kw:
+                    recv.sort(); return None
+                raise Unknown('list.sort of symbolic elements')
+            if name in ('index', 'count', 'remove') and len(args) == 1:
+                for i, x in enumerate(list(recv)):
+                    if self._same(x, args[0]):
+                        if name == 'index':
+                            return i
+                        if name == 'remove':
+                            del recv[i]
+                            return None
+                if name == 'count':
+                    raise Unknown('list.count')
+                raise self._raise_builtin('ValueError')
+            raise Unknown(f'list.{name}')
+        if isinstance(recv, dict):
+            if name == 'get' and 1 <= len(args) <= 2:
+                k = args[0]
+                for x, v in recv.items():
+                    if show(x) == show(k):
+                        return v
+                if all(_concrete(x) for x in recv) and _concrete(k):
+                    return args[1] if len(args) == 2 else None
+                for x, v in recv.items():
+                    if self._same(x, k):
+                        return v
+                return args[1] if len(args) == 2 else None
+            if name in ('items', 'keys', 'values') and not args:
+                return [tuple(i) for i in recv.items()] if name == 'items' else list(getattr(recv, name)())
+            if name == 'copy' and not args:
+                return dict(recv)
+            if name == 'update':
+                for a in args:
+                    if isinstance(a, dict):
+                        recv.update(a)
+                    else:
+                        raise Unknown('dict.update')
+                recv.update(kw)
+                return None
+            if name == 'pop' and 1 <= len(args) <= 2:
+                k = args[0]
+                for x in list(recv):
+                    if show(x) == show(k):
+                        return recv.pop(x)
+                if all(_concrete(x) for x in recv) and _concrete(k):
+                    if len(args) == 2:
+                        return args[1]
+                    raise self._raise_builtin('KeyError')
+                raise Unknown('dict.pop with symbolic key')
+            if name == 'setdefault' and len(args) == 2:
+                k = args[0]
+                for x in recv:
+                    if show(x) == show(k):
+                        return recv[x]
+                if all(_concrete(x) for x in recv) and _concrete(k):
+                    recv[k] = args[1]
+                    return args[1]
+                raise Unknown('dict.setdefault')
+            if name == 'clear':
+                recv.clear(); return None
+            raise Unknown(f'dict.{name}')
+        if isinstance(recv, (set, frozenset)):
+            if name == 'add' and len(args) == 1 and isinstance(recv, set):
+                for x in recv:
+                    if self._same(x, args[0]):
+                        return None
+                recv.add(self._hashable(args[0])); return None
+            if name in ('discard', 'remove') and len(args) == 1 and isinstance(recv, set):
+                for x in list(recv):
+                    if self._same(x, args[0]):
+                        recv.discard(x)
+                        return None
+                if name == 'remove':
+                    raise self._raise_builtin('KeyError')
+                return None
+            if name == 'copy':
+                return set(recv)
+            if name in ('union', 'intersection', 'difference', 'update', 'issubset', 'isdisjoint') and len(args) == 1 \
+                    and not isinstance(args[0], Sym) and isinstance(args[0], (set, frozenset, list, tuple)):
+                other = list(args[0])
+                def has(coll, v):
+                    return any(self._same(x, v) for x in coll)
+                if name in ('union', 'update'):
+                    out = recv if name == 'update' else set(recv)
+                    for v in other:
+                        if not has(out, v):
+                            out.add(self._hashable(v))
+                    return None if name == 'update' else out
+                if name == 'intersection':
+                    return {x for x in recv if has(other, x)}
+                if name == 'difference':
+                    return {x for x in recv if not has(other, x)}
+                if name == 'issubset':
+                    return all(has(other, x) for x in recv)
+                if name == 'isdisjoint':
+                    return not any(has(other, x) for x in recv)
+            if name == 'pop' and not args and isinstance(recv, set):
+                if not recv:
+                    raise self._raise_builtin('KeyError')
+                if len(recv) == 1:
+                    return recv.pop()
+                raise Unknown('set.pop of several elements')
+            if name == 'clear' and isinstance(recv, set):
+                recv.clear(); return None
+            raise Unknown(f'set.{name}')
+        if isinstance(recv, str):
+            if all(_concrete(a) for a in args) and not kw and name in (
+                    'startswith', 'endswith', 'lower', 'upper', 'strip', 'split', 'partition',
+                    'rpartition', 'removeprefix', 'removesuffix', 'format', 'join', 'replace',
+                    'isidentifier', 'isdigit', 'lstrip', 'rstrip', 'rsplit', 'count', 'find'):
+                return getattr(recv, name)(*args)
+            if name in ('format', 'join'):
+                return Sym(f'{show(recv)}.{name}({", ".join(show(a) for a in args)})')
+            raise Unknown(f'str.{name}')
+        if isinstance(recv, tuple):
+            if name in ('index', 'count') and len(args) == 1 and _concrete(recv) and _concrete(args[0]):
+                return getattr(recv, name)(args[0])
+            if name == '_replace' and isinstance(recv, NT):
+                vals = list(recv)
+                for k, v in kw.items():
+                    vals[recv.fields.index(k)] = v
+                r = NT(vals)
+                r.fields = recv.fields
+                return r
+            if name == '_asdict' and isinstance(recv, NT):
+                return dict(zip(recv.fields, recv))
+            raise Unknown(f'tuple.{name}')
         return NotImplemented
+
+    def _ordered(self, coll):
+        if isinstance(coll, (set, frozenset)):
+            return sorted(coll, key=show)
+        return list(coll)
+
+    @staticmethod
+    def _is_generator(fn) -> bool:
+        todo = list(fn.body) if not isinstance(fn, ast.Lambda) else []
+        while todo:
+            x = todo.pop()
+            if isinstance(x, (ast.Yield, ast.YieldFrom)):
+                return True
+            if isinstance(x, (ast.FunctionDef, ast.AsyncFunctionDef, ast.Lambda, ast.ClassDef)):
+                continue
+            todo.extend(ast.iter_child_nodes(x))
+        return False
+
+    def _generator_target(self, call, env):
+        """The stepped-into generator function a call node denotes, or None."""
+        if not isinstance(call, ast.Call):
+            return None
+        tgt = self._stepin_target(call, env)
+        if tgt is None:
+            return None
+        fn = tgt[0].node if isinstance(tgt[0], Closure) else tgt[0]
+        if isinstance(fn, ast.Lambda) or not self._is_generator(fn):
+            return None
+        for x in ast.walk(fn):
+            if isinstance(x, ast.YieldFrom):
+                raise Unknown('yield from')
+        return tgt
+
+    def _run_generator(self, call, env, on_yield):
+        """Run a stepped-into generator function; every `yield v` calls on_yield(v) in place (the
+        consumer's code runs at the yield point, which is what iteration does)."""
+        self.yield_hooks.append(on_yield)
+        self._gen_ok = True
+        try:
+            return self.ev_Call(call, env)
+        finally:
+            self.yield_hooks.pop()
 
     def call_function(self, fn, args, kw, closure_env, qual):
         if self.depth >= MAX_DEPTH:
@@ -1054,18 +1284,38 @@ class Run:
         if isinstance(fn, ast.Lambda):
             body = None
         else:
-            for x in ast.walk(fn):
-                if isinstance(x, (ast.Yield, ast.YieldFrom)):
-                    raise Unknown('generator')
+            if self._is_generator(fn) and not getattr(self, '_gen_ok', False):
+                raise Unknown('generator')
+            self._gen_ok = False
         a = fn.args
         frame = {'vars': {}, 'parent': closure_env, 'nonlocal': set()}
         pos = a.posonlyargs + a.args
         args = list(args)
         kw = dict(kw)
-        if any(k.startswith('**') for k in kw):
-            raise Unknown('opaque keyword arguments to an interpreted function')
-        if any(isinstance(x, Sym) and str(x).startswith('*') for x in args):
-            raise Unknown('opaque star arguments to an interpreted function')
+        star_kw = [k for k in kw if k.startswith('**')]
+        opaque_kw = None
+        if star_kw:
+            if len(star_kw) > 1 or not a.kwarg:
+                raise Unknown('opaque keyword arguments to an interpreted function')
+            names = {p.arg for p in pos + a.kwonlyargs}
+            if len(kw) > 1 and False:
+                pass
+            # the unknown mapping might name a formal parameter: only safe when all formals are
+            # given explicitly
+            given = set(kw) - set(star_kw)
+            if not names <= given | {p.arg for p in pos[:len(args)]} | {
+                    p.arg for i, p in enumerate(pos) if i >= len(pos) - len(a.defaults)} | {
+                    p.arg for p, d in zip(a.kwonlyargs, a.kw_defaults) if d is not None}:
+                raise Unknown('opaque keyword arguments may bind a formal parameter')
+            opaque_kw = kw.pop(star_kw[0])
+            if kw and any(k not in names for k in kw):
+                raise Unknown('opaque and explicit extra keyword arguments')
+        star_pos = [i for i, x in enumerate(args) if isinstance(x, Star)]
+        opaque_pos = None
+        if star_pos:
+            if star_pos != [len(args) - 1] or not a.vararg or len(args) - 1 != len(pos):
+                raise Unknown('opaque star arguments to an interpreted function')
+            opaque_pos = Sym(str(args.pop())[1:])
         ndef = len(a.defaults)
         for i, p in enumerate(pos):
             if i < len(args):
@@ -1082,7 +1332,7 @@ class Run:
                 raise Unknown('too many arguments')
             frame['vars'][a.vararg.arg] = tuple(args[len(pos):])
         elif a.vararg:
-            frame['vars'][a.vararg.arg] = ()
+            frame['vars'][a.vararg.arg] = opaque_pos if opaque_pos is not None else ()
         for p, d in zip(a.kwonlyargs, a.kw_defaults):
             if p.arg in kw:
                 frame['vars'][p.arg] = kw.pop(p.arg)
@@ -1095,7 +1345,7 @@ class Run:
                 raise Unknown('unexpected keyword argument')
             frame['vars'][a.kwarg.arg] = dict(kw)
         elif a.kwarg:
-            frame['vars'][a.kwarg.arg] = {}
+            frame['vars'][a.kwarg.arg] = opaque_kw if opaque_kw is not None else {}
         self.depth += 1
         saved_cls = self.cls
         if qual and '.' in qual and closure_env is None:
@@ -1146,9 +1396,9 @@ class Run:
             obj = self.ev(target.value, env)
             if not isinstance(obj, Sym):
                 raise Unknown('attribute store on a local value')
+            value = self.settle(value)
             self.effect('set', f'{obj}.{target.attr}', show(value), bump=False, fault=False)
-            if isinstance(value, (list, dict, set)):
-                raise Unknown('local container stored into an attribute')
+            self.escape(value)
             self.store[(str(obj), target.attr)] = value
         elif isinstance(target, ast.Subscript):
             obj = self.ev(target.value, env)
@@ -1159,9 +1409,11 @@ class Run:
                 for x in list(obj):
                     if show(x) == show(key):
                         obj[x] = value
+                        self.mutated(obj)
                         return
                 if all(_concrete(x) for x in obj) and _concrete(key) or not obj:
                     obj[self._hashable(key)] = value
+                    self.mutated(obj)
                     return
                 raise Unknown('dict store with symbolic key')
             if isinstance(obj, list) and isinstance(key, int):
@@ -1169,11 +1421,12 @@ class Run:
                     obj[key] = value
                 except IndexError:
                     raise self._raise_builtin('IndexError')
+                self.mutated(obj)
                 return
             if isinstance(obj, Sym):
-                if isinstance(value, (list, dict, set)):
-                    raise Unknown('local container stored into an item')
+                value = self.settle(value)
                 self.effect('setitem', str(obj), show(key), show(value), bump=False)
+                self.escape(value)
                 return
             raise Unknown('subscript store')
         else:
@@ -1215,16 +1468,35 @@ class Run:
         o = type(st.op).__name__
         if isinstance(cur, list) and o == 'Add' and isinstance(val, (list, tuple)) and not isinstance(val, Sym):
             cur.extend(val)
+            self.mutated(cur)
             return
         if isinstance(cur, set) and o == 'BitOr' and isinstance(val, (set, frozenset)):
-            cur |= val
+            self._method(cur, 'update', [val], {})
+            self.mutated(cur)
             return
         if isinstance(cur, (list, set, dict)):
             raise Unknown('augmented assignment on a local container')
         self.assign(st.target, self.binop(o, cur, val), env)
 
+    def settle(self, v):
+        """A symbolic truth value that leaves the function (returned, stored, passed on) is decided:
+        `return a == b` and `if a == b: return True ... return False` get the same summary."""
+        if isinstance(v, Sym) and not isinstance(v, GSym):
+            s = str(v)
+            while True:
+                n = _neg(s)
+                if len(n) < len(s):
+                    s = str(n)
+                else:
+                    break
+            if s.startswith(_ATOM_HEADS) and not s.startswith('truth('):
+                return self.decide(v)
+        elif isinstance(v, tuple) and not isinstance(v, NT):
+            return tuple(self.settle(x) for x in v)
+        return v
+
     def st_Return(self, st, env):
-        raise _Ret(self.ev(st.value, env) if st.value is not None else None)
+        raise _Ret(self.settle(self.ev(st.value, env)) if st.value is not None else None)
 
     def st_If(self, st, env):
         self.block(st.body if self.decide(self.ev(st.test, env)) else st.orelse, env)
@@ -1284,6 +1556,8 @@ class Run:
         if typ_node is None:
             return True
         names = [typ_node] if not isinstance(typ_node, ast.Tuple) else list(typ_node.elts)
+        if show(exc.val) in self.exc_group:
+            return self.exc_isinstance(show(exc.val), [ast.unparse(n).split('.')[-1] for n in names])
         for n in names:
             hn = ast.unparse(n).split('.')[-1]
             if exc.cls.startswith('?'):
@@ -1295,16 +1569,25 @@ class Run:
         return False
 
     def st_Try(self, st, env):
+        def names_of(h):
+            if h.type is None:
+                return ['BaseException']
+            return [ast.unparse(n).split('.')[-1] for n in
+                    ([h.type] if not isinstance(h.type, ast.Tuple) else h.type.elts)]
+
+        def guarded(stmts, level):
+            self.try_stack.append(level)
+            try:
+                self.block(stmts, env)
+            finally:
+                self.try_stack.pop()
+
         def run_finally():
             if st.finalbody:
                 self.block(st.finalbody, env)
         try:
             try:
-                self.try_depth += 1
-                try:
-                    self.block(st.body, env)
-                finally:
-                    self.try_depth -= 1
+                guarded(st.body, [names_of(h) for h in st.handlers])
             except _Exc as exc:
                 for h in st.handlers:
                     if self._matches(exc, h.type, env):
@@ -1313,12 +1596,9 @@ class Run:
                         self.cur_exc.append(exc)
                         try:
                             if st.finalbody:
-                                self.try_depth += 1
-                            try:
+                                guarded(h.body, [])
+                            else:
                                 self.block(h.body, env)
-                            finally:
-                                if st.finalbody:
-                                    self.try_depth -= 1
                         finally:
                             self.cur_exc.pop()
                         break
@@ -1327,12 +1607,9 @@ class Run:
             else:
                 if st.orelse:
                     if st.finalbody:
-                        self.try_depth += 1
-                    try:
+                        guarded(st.orelse, [])
+                    else:
                         self.block(st.orelse, env)
-                    finally:
-                        if st.finalbody:
-                            self.try_depth -= 1
         except (_Exc, _Ret, _Break, _Continue):
             run_finally()
             raise
@@ -1359,24 +1636,53 @@ class Run:
         # contextlib.suppress(A, B): exactly try/except A, B: pass
         if isinstance(ce, ast.Call) and ast.unparse(ce.func).split('.')[-1] == 'suppress' and not is_async:
             names = [ast.unparse(a).split('.')[-1] for a in ce.args]
-            self.try_depth += 1
+            self.try_stack.append([names])
             try:
                 self.block(st.body, env)
             except _Exc as exc:
+                if show(exc.val) in self.exc_group:
+                    if self.exc_isinstance(show(exc.val), names):
+                        return
+                    raise
                 if not exc.cls.startswith('?') and any(n in _ancestors(exc.cls) for n in names):
                     return
                 if exc.cls.startswith('?'):
                     raise Unknown('suppress of an unknown exception')
                 raise
             finally:
-                self.try_depth -= 1
+                self.try_stack.pop()
+            return
+        gt = self._generator_target(ce, env)
+        if gt is not None:
+            fn = gt[0].node if isinstance(gt[0], Closure) else gt[0]
+            decos = {ast.unparse(d).split('.')[-1] for d in fn.decorator_list}
+            if not decos & {'contextmanager', 'asynccontextmanager'}:
+                raise Unknown('with over a plain generator')
+            state = {'n': 0}
+
+            def body(v):
+                state['n'] += 1
+                if state['n'] > 1:
+                    raise Unknown('context manager yields twice')
+                if item.optional_vars is not None:
+                    self.assign(item.optional_vars, v, env)
+                self.block(st.body, env)
+                return None
+            hooks = self.yield_hooks
+            self._run_generator(ce, env, lambda v: self._outside_gen(hooks, body, v))
+            if state['n'] != 1:
+                raise Unknown('context manager does not yield')
             return
         v = self.ev(ce, env)
         n = self.effect('aenter' if is_async else 'enter', show(v))
         if item.optional_vars is not None:
             self.assign(item.optional_vars, Sym(f'ctx{n}'), env)
         try:
-            self.block(st.body, env)
+            self.try_stack.append([])
+            try:
+                self.block(st.body, env)
+            finally:
+                self.try_stack.pop()
         except _Exc as exc:
             self.effect('exit', show(v), 'exc', show(exc.val), fault=False)
             # an unknown context manager may swallow the exception
@@ -1391,9 +1697,7 @@ class Run:
     def _iterate(self, itv, text_hint):
         """Yield loop elements: concrete collections as they are, unknown ones 0..LOOP_UNROLL."""
         if not isinstance(itv, Sym) and isinstance(itv, (list, tuple, set, frozenset, dict)):
-            if isinstance(itv, (set, frozenset)) and len(itv) > 1:
-                raise Unknown('iteration order of a local set')
-            for x in list(itv):
+            for x in self._ordered(itv):
                 yield x
             return
         if isinstance(itv, str) and not isinstance(itv, Sym):
@@ -1401,7 +1705,7 @@ class Run:
         txt = show(itv)
         k = 0
         while True:
-            if k >= LOOP_UNROLL:
+            if k >= self.ctx.unroll[0]:
                 return
             if not self.choose(f'more({txt}, {k})', [False, True]):
                 return
@@ -1409,6 +1713,22 @@ class Run:
             k += 1
 
     def st_For(self, st, env):
+        if self._generator_target(st.iter, env) is not None:
+            def body(v):
+                self.assign(st.target, v, env)
+                try:
+                    self.block(st.body, env)
+                except _Continue:
+                    pass
+                return None
+            hooks = self.yield_hooks
+            try:
+                self._run_generator(st.iter, env, lambda v: self._outside_gen(hooks, body, v))
+            except _Break:
+                return
+            if st.orelse:
+                self.block(st.orelse, env)
+            return
         itv = self.ev(st.iter, env)
         broke = False
         for el in self._iterate(itv, st.iter):
@@ -1423,6 +1743,16 @@ class Run:
         if not broke and st.orelse:
             self.block(st.orelse, env)
 
+    def _outside_gen(self, hooks, fn, v):
+        """Run consumer code at a yield point: it is not inside the generator (its own yields, if
+        any, belong to the enclosing hooks)."""
+        saved = self.yield_hooks
+        self.yield_hooks = saved[:-1]
+        try:
+            return fn(v)
+        finally:
+            self.yield_hooks = saved
+
     def st_AsyncFor(self, st, env):
         raise Unknown('async for')
 
@@ -1432,7 +1762,7 @@ class Run:
         while True:
             if not self.decide(self.ev(st.test, env)):
                 break
-            if k >= WHILE_UNROLL:
+            if k >= self.ctx.unroll[1]:
                 self.cut = True
                 raise _Ret(Sym('<loop bound>'))
             k += 1
@@ -1480,6 +1810,7 @@ class Run:
                     for x in list(obj):
                         if show(x) == show(key):
                             del obj[x]
+                            self.mutated(obj)
                             break
                     else:
                         if all(_concrete(x) for x in obj) and _concrete(key):
@@ -1509,19 +1840,22 @@ class Run:
         for p in a.posonlyargs + a.args + a.kwonlyargs:
             frame['vars'][p.arg] = Sym(p.arg)
         if a.vararg:
-            frame['vars'][a.vararg.arg] = Sym('*' + a.vararg.arg)
+            frame['vars'][a.vararg.arg] = Sym(a.vararg.arg)
         if a.kwarg:
-            frame['vars'][a.kwarg.arg] = Sym('**' + a.kwarg.arg)
-        for x in ast.walk(fn):
-            if isinstance(x, (ast.Yield, ast.YieldFrom)):
-                raise Unknown('generator')
+            frame['vars'][a.kwarg.arg] = Sym(a.kwarg.arg)
+        # the collected *args / **kwargs and the receiver are objects, never None
+        for nm in [x.arg for x in (a.vararg, a.kwarg) if x] + [
+                p.arg for p in (a.posonlyargs + a.args)[:1] if p.arg in ('self', 'cls')]:
+            self.facts[f'is(None, {nm})'] = False
+        if self._is_generator(fn):
+            raise Unknown('generator')
         try:
             self.block(fn.body, frame)
             out = ('return', 'None')
         except _Ret as r:
             out = ('return', show(r.v))
         except _Exc as exc:
-            out = ('raise', exc.cls, show(exc.val))
+            out = ('raise', self.exc_cls.get(show(exc.val), exc.cls), show(exc.val))
         except (_Break, _Continue):
             raise Unknown('stray break/continue')
         return out
@@ -1539,18 +1873,30 @@ def summarise(ctx: Ctx, qual: str, fn) -> list:
         except RecursionError:
             raise Unknown('recursion')
         work.extend(run.alts)
-        paths.append((dict(run.taken), tuple(run.trace), out))
+        paths.append((dict(run.facts), tuple(run.trace), out))
         if len(paths) > MAX_PATHS:
             raise Unknown('path budget')
     return paths
 
 
+def _groups_meet(key, a, b) -> bool:
+    if not (key.startswith('fault@') or key.startswith('sub-fault:')) or a is None or b is None:
+        return False
+    return bool(set(a.split('|')) & set(b.split('|')))
+
+
 def compare(pa: list, pb: list):
     """None when equivalent, else a description of the first differing compatible pair."""
+    exact = {}
+    for fb, tb, ob in pb:
+        exact[frozenset(fb.items())] = (tb, ob)
     for fa, ta, oa in pa:
+        hit = exact.get(frozenset(fa.items()))
+        if hit is not None and hit == (ta, oa):
+            continue        # paths of one function exclude each other: no other partner is compatible
         for fb, tb, ob in pb:
             small, big = (fa, fb) if len(fa) <= len(fb) else (fb, fa)
-            if any(k in big and big[k] != v for k, v in small.items()):
+            if any(k in big and big[k] != v and not _groups_meet(k, big[k], v) for k, v in small.items()):
                 continue
             if ta != tb or oa != ob:
                 i = next((i for i, (x, y) in enumerate(zip(ta, tb)) if x != y), min(len(ta), len(tb)))
@@ -1635,17 +1981,73 @@ def _reach(start_fn, funcs: dict, only: set) -> list:
     return out
 
 
+def _cache_path():
+    import tempfile
+    return os.path.join(tempfile.gettempdir(), 'edzed-verif-e13-cache.json')
+
+
+_CACHE = None
+
+
+def _cache_key(qual, fns, alphabet) -> str:
+    import hashlib
+    h = hashlib.sha1()
+    try:
+        with open(__file__, 'rb') as f:
+            h.update(f.read())
+    except OSError:
+        pass
+    h.update(repr((qual, alphabet)).encode())
+    for f in fns:
+        h.update(ast.dump(f, include_attributes=False).encode())
+    return h.hexdigest()
+
+
+def equivalent_cached(qual, cur_fn, ref_fn, cur_ctx, ref_ctx, fns):
+    """The verdict depends only on the texts of the functions involved and of this module: a
+    cache (optional, outside the repository and /verif) saves the 20 checks recomputing it."""
+    global _CACHE
+    if _CACHE is None:
+        try:
+            with open(_cache_path(), encoding='utf-8') as f:
+                _CACHE = json.load(f)
+        except (OSError, ValueError):
+            _CACHE = {}
+    key = _cache_key(qual, fns + list(cur_ctx.classes.values()) + list(ref_ctx.classes.values()),
+                     cur_ctx.alphabet)
+    if key in _CACHE:
+        ok, info = _CACHE[key]
+        return ok, info
+    ok, info = equivalent(qual, cur_fn, ref_fn, cur_ctx, ref_ctx)
+    _CACHE[key] = [ok, info]
+    try:
+        tmp = _cache_path() + f'.{os.getpid()}'
+        with open(tmp, 'w', encoding='utf-8') as f:
+            json.dump(_CACHE, f)
+        os.replace(tmp, _cache_path())
+    except OSError:
+        pass
+    return ok, info
+
+
 def equivalent(qual, cur_fn, ref_fn, cur_ctx: Ctx, ref_ctx: Ctx):
     """(True, info) / (False, why)"""
-    try:
-        pa = summarise(cur_ctx, qual, cur_fn)
-        pb = summarise(ref_ctx, qual, ref_fn)
-    except Unknown as err:
-        return False, f'not summarised: {err}'
-    diff = compare(pa, pb)
-    if diff is not None:
-        return False, f'differs: {diff}'
-    return True, f'{len(pa)} x {len(pb)} paths'
+    err = None
+    for level in UNROLL_LEVELS:
+        cur_ctx.unroll = ref_ctx.unroll = level
+        try:
+            pb = summarise(ref_ctx, qual, ref_fn)
+            pa = summarise(cur_ctx, qual, cur_fn)
+        except Unknown as e:
+            err = e
+            if str(e) == 'path budget':
+                continue        # same function, loops unrolled less deeply (both versions alike)
+            return False, f'not summarised: {e}'
+        diff = compare(pa, pb)
+        if diff is not None:
+            return False, f'differs: {diff}'
+        return True, f'{len(pa)} x {len(pb)} paths, loops unrolled {level[0]}/{level[1]} times'
+    return False, f'not summarised: {err}'
 
 
 def semantic_substitute(modname: str, tree: ast.Module, const_attrs=frozenset()) -> list:
@@ -1673,12 +2075,12 @@ def semantic_substitute(modname: str, tree: ast.Module, const_attrs=frozenset())
     proved = []
     for q in changed:
         fns = [cur[q], ref[q]] + _reach(cur[q], cur, only_cur) + _reach(ref[q], ref, only_ref)
-        alphabet = sorted(_handler_names(fns) | {'Other'})
+        alphabet = sorted((_handler_names(fns) - {'Exception', 'BaseException'}) | {'Other'})
         if any(isinstance(x, (ast.Await,)) for f in fns for x in ast.walk(f)):
             alphabet = sorted(set(alphabet) | {'CancelledError'})
         cctx = Ctx(cur, cur_classes, only_cur, const_attrs, alphabet)
         rctx = Ctx(ref, ref_classes, only_ref, const_attrs, alphabet)
-        ok, info = equivalent(q, cur[q], ref[q], cctx, rctx)
+        ok, info = equivalent_cached(q, cur[q], ref[q], cctx, rctx, fns)
         log.append((q, 'restructured', f'equivalent to the reference form ({info})' if ok else f'kept as is ({info})'))
         if ok:
             proved.append(q)
